@@ -291,6 +291,21 @@ def install(ex):
                 return v
             alts.append((c, take))
 
+        # nothing stored (or the GC emptied the pool): sync.Pool falls back to New when it is set
+        newfn = None
+        try:
+            tree = ex.load(st, p)
+            if isinstance(tree, tuple) and len(tree) >= 1 and isinstance(tree[-1], Closure):
+                newfn = tree[-1]
+        except Exception:
+            newfn = None
+        if newfn is not None:
+            if not alts:
+                return CallInstead(newfn.fn, [], newfn.binds)
+            # both alternatives: a stored element, or a fresh one from New -- explored as a nondeterministic choice
+            alts.append((True, ("call", newfn)))
+            return ForkResult(alts, lazy=True)
+
         def none(s2):
             s2.events.append("pool.Get->nil")
             return None
@@ -307,6 +322,16 @@ def install(ex):
               "runtime.UnlockOSThread", "runtime.KeepAlive", "(*sync.WaitGroup).Add", "(*sync.WaitGroup).Done",
               "(*sync.WaitGroup).Wait", "runtime.SetFinalizer", "runtime.GC"):
         S[n] = noop
+
+    # sync.Once: Do runs f at most once per Once object
+    def once_do(ex, st, args, ins):
+        key = ("once", args[0].key())
+        if st.ghost.get(key):
+            return None
+        st.ghost[key] = True
+        f = args[1]
+        return CallInstead(f.fn, [], f.binds)
+    S["(*sync.Once).Do"] = once_do
 
     def at_load(ex, st, args, ins):
         return ex.load(st, args[0])
@@ -498,6 +523,57 @@ def install_contracts(ex, names):
         st.ghost["rb_released"] = st.ghost.get("rb_released", ()) + (b.obj,)
         st.events.append("rbPool.Put")
         return None
+
+    if "gnet_env" in names:
+        # error plumbing used by the I/O path
+        def new_syscall_error(ex, st, args, ins):
+            name, err = args
+            if err is None:
+                return None
+            return Iface("opaque", ("syscallerr", id(err), err))
+
+        def errors_is(ex, st, args, ins):
+            err, target = args
+            for _ in range(8):
+                if err is None:
+                    return target is None
+                if isinstance(err, Iface) and isinstance(target, Iface) and err.tid == target.tid:
+                    e = ex.val_eq(st, err, target, None) if False else None
+                if err is target:
+                    return True
+                try:
+                    tid_iface = None
+                    same = (err.tid == target.tid) and (ex.val_eq_iface(st, err, target))
+                except Exception:
+                    same = False
+                if same is True:
+                    return True
+                if isinstance(err, Iface) and err.tid == "opaque" and isinstance(err.val, tuple) and err.val[0] == "syscallerr":
+                    err = err.val[2]
+                    continue
+                return same
+            return False
+
+        def fmt_errorf(ex, st, args, ins):
+            ex.symctr += 1
+            return Iface("opaque", ("errorf", ex.symctr))
+        S["os.NewSyscallError"] = new_syscall_error
+        S["errors.Is"] = errors_is
+        S["fmt.Errorf"] = fmt_errorf
+        # strings.Builder: only Len() > 0 matters to the code under test
+        def sb_write(ex, st, args, ins):
+            key = ("sb", args[0].key())
+            st.ghost[key] = st.ghost.get(key, 0) + 1
+            return (0, None)
+
+        def sb_len(ex, st, args, ins):
+            return st.ghost.get(("sb", args[0].key()), 0)
+        S["(*strings.Builder).WriteString"] = sb_write
+        S["(*strings.Builder).Len"] = sb_len
+        S["(*strings.Builder).String"] = lambda ex, st, args, ins: ex.str_const(st, b"<builder>")
+        S["strings.TrimSuffix"] = lambda ex, st, args, ins: args[0]
+        S["(opaque).Error"] = lambda ex, st, args, ins: ex.str_const(st, b"<error>")
+        S["opaque.Error"] = lambda ex, st, args, ins: ex.str_const(st, b"<error>")
 
     if "net_ipv4" in names:
         def net_ipv4(ex, st, args, ins):
